@@ -762,15 +762,19 @@ impl DhtNetworkManager {
         // Replicate to closest nodes in parallel for better performance
         let mut replicated_count = 1; // Local storage
 
-        // Create parallel replication requests
-        let replication_futures = closest_nodes.iter().map(|node| {
-            let peer_id = node.peer_id.clone();
-            let op = operation.clone();
-            async move {
-                debug!("Sending PUT to peer: {}", peer_id);
-                (peer_id.clone(), self.send_dht_request(&peer_id, op).await)
-            }
-        });
+        // Create parallel replication requests. The lookup result includes the local
+        // node (already stored above): never address ourselves over the network.
+        let replication_futures = closest_nodes
+            .iter()
+            .filter(|node| !self.is_local_peer_id(&node.peer_id))
+            .map(|node| {
+                let peer_id = node.peer_id.clone();
+                let op = operation.clone();
+                async move {
+                    debug!("Sending PUT to peer: {}", peer_id);
+                    (peer_id.clone(), self.send_dht_request(&peer_id, op).await)
+                }
+            });
 
         // Execute all replication requests in parallel
         let results = futures::future::join_all(replication_futures).await;
